@@ -58,6 +58,47 @@ def run(ctx):
     ctx.rule("R04.5", "insurance draw for a shortfall is added to prepaid_bad_debt with the same operand; mutated State is stored", 6)
 
     r04_7(ctx, em)
+    # ---- R04.9: the open notional the realised PnL is measured against is kept: an increase adds the order's quote
+    # amount (the record's open_notional, the amount the SwapInput asked to trade) to the stored notional
+    ctx.rule("R04.9", "open notional bookkeeping: the increase reply stores notional = loaded notional + the in-flight record's open_notional; the execute step records open_notional = the quote amount it asks the vAMM to swap", 3)
+    for ckey in ("OpenPosition>id1", "OpenPosition>id3>id1"):
+        st9 = em.reply_step(ckey)
+        if st9 is None:
+            ctx.lost("R04.9", ckey)
+            continue
+        bad9 = None
+        n9 = 0
+        for q in st9.ok_paths():
+            sp = em.stored_position(st9, q)
+            if not sp:
+                continue
+            nn = N(ix, st9.c(sym.field(sp[-1], "notional")))
+            # (the step of this chain is the increase arm: the reply id is bound to the arm's constant)
+            if match(("add", em.pos_field_leaf("notional"), em.tmp_leaf("open_notional")), nn) is not None:
+                n9 += 1
+            else:
+                bad9 = bad9 or "the increasing store writes notional = %s" % norm.show(nn)[:200]
+        ctx.inst("R04.9", "notional-on-increase:%s" % ckey, bad9 is None and n9 > 0, st9.fn.where(), bad9 or "%d increasing stores: notional = position.notional + tmp.open_notional" % n9)
+    ex9 = em.exec_step("OpenPosition")
+    if ex9 is None:
+        ctx.lost("R04.9", "OpenPosition execute step")
+    else:
+        bad9 = None
+        n9 = 0
+        for q in ex9.ok_paths():
+            tv = em.stored_tmp(ex9, q)
+            for s_ in em.emitted(q):
+                if s_.id_int() != 1 or s_.reply_on_name() != "Always":
+                    continue
+                mv = ix.msg_variant(s_.inner_msg())
+                if not mv or mv[1] != "SwapInput" or not tv:
+                    continue
+                n9 += 1
+                if N(ix, ex9.c(mv[2]["quote_asset_amount"])) != N(ix, ex9.c(sym.field(tv[-1], "open_notional"))):
+                    bad9 = bad9 or "the increase asks the vAMM to swap %s but records open_notional = %s" % (
+                        norm.show(N(ix, ex9.c(mv[2]["quote_asset_amount"])))[:120], norm.show(N(ix, ex9.c(sym.field(tv[-1], "open_notional"))))[:120])
+        ctx.inst("R04.9", "recorded-notional-is-swapped-quote:OpenPosition", bad9 is None and n9 > 0, ex9.fn.where(),
+                 bad9 or "%d increase emissions: SwapInput.quote_asset_amount == recorded open_notional" % n9)
     from .balance import balance_instances
     ctx.rule("R04.8", "the vault balance that sizes insurance draws and payouts is the engine's own balance of the collateral token: the balance query asks for (token, account) as given in both collateral arms, every engine call site passes (config.eligible_collateral, env.contract.address)", 3)
     balance_instances(ctx, "R04.8")
